@@ -50,7 +50,7 @@ def try_builtin(ex, fr, callee, args, dty):
             or "panicking::" in c:
         raise Panic(c)
     # ---- integer inherent methods
-    m = re.match(r"^(?:core|std)::num::<impl (" + INTNAMES + r")>::(\w+)$", c)
+    m = re.search(r"(?:^|::)(?:core|std)::num::<impl (" + INTNAMES + r")>::(\w+)$", c)
     if m:
         return int_method(ex, m.group(1), m.group(2), args, dty)
     m = re.match(r"^(" + INTNAMES + r")::(\w+)$", c)
@@ -87,6 +87,9 @@ def try_builtin(ex, fr, callee, args, dty):
         inner = deref(ex, args[0])
         if isinstance(inner, RefV):
             return inner
+        if isinstance(inner, OpaqueV) and re.match(r"^(?:std::\w+::|alloc::\w+::)?(Arc|Box|Rc)<", inner.ty.strip()):
+            it = inner.ty[inner.ty.index("<") + 1:inner.ty.rindex(">")]
+            return ex.ctx.ref_to(OpaqueV(inner.name + ".deref", it), it)
     m = re.match(r"^<(.+) as (?:std::|core::)?(?:cmp::)?PartialEq(?:<.*>)?>::(eq|ne)$", c)
     if m:
         a, b = deref(ex, args[0]), deref(ex, args[1])
@@ -515,7 +518,7 @@ def big_trait(ex, ty, trait, targ, method, a, b, dty):
 
 
 def big_method(ex, c, args, dty):
-    m = re.match(r"^(?:numext_fixed_uint::|numext_fixed_uint_core::|ckb_types::)?(?:\w+::)*(U256|U512|U128)::(\w+)$", c)
+    m = re.match(r"^(?:numext_fixed_uint::|numext_fixed_uint_core::|ckb_types::)?(?:\w+::)*<?(?:impl )?(U256|U512|U128)>?::(\w+)$", c)
     if not m:
         m2 = re.match(r"^<&?(?:'\w+ )?(U256|U512|U128) as (?:std::|core::)?(?:\w+::)*(\w+)(?:<(.*)>)?>::(\w+)$", c)
         if m2:
